@@ -22,7 +22,10 @@ WRITER_FORMAT = {"SRTWriter": "SRTReader", "WebVTTWriter": "WebVTTReader", "DFXP
                  "SAMIWriter": "SAMIReader", "MicroDVDWriter": "MicroDVDReader", "SCCWriter": "SCCReader"}
 MARKER_ALPHABET = list("0123456789\n{}<>/-: \t\r\0\ufeff\u2028\u2029\x0c\x0b\x85\x1c\udc80\u0130\u00df\u0663\u00b2") + list("WEBVTT") + list("sami") + list("tt") + list("Scenarist_SCC V1.0")
 ENCODINGS = ["bom", "crlf", "bom+crlf", "cr", "nul_padding", "leading_newlines", "trailing_space_lines", "upper", "lower",
-             "double_bom", "bom_mid"]
+             "double_bom", "bom_mid",
+             # a stray leading character whose case mapping changes the length of the string (U+0130), that cannot be
+             # encoded (lone surrogate), NUL, a non-ASCII digit
+             "lead:\u0130", "lead:\u0130\u0130\u0130", "lead:\u00df", "lead:\udc80", "lead:\x00", "lead:\u0663", "lead: "]
 FAULT_KINDS = ["transfer_encoding", "torn_prefix", "torn_byte_prefix", "torn_suffix", "lost_write", "stale_tail", "misdirected_concat",
                "duplicated_block", "dropped_block", "corrupted_char", "inserted_char", "deleted_char"]
 
@@ -64,6 +67,8 @@ def apply_fault(f, docs_by_name):
             t = t.upper()
         if enc == "lower":
             t = t.lower()
+        if enc.startswith("lead:"):
+            t = enc[5:] + t
         return t if k is None else t[:k]
     if kind == "lost_write":
         return "" if f[2] is None else docs_by_name[f[2]]
@@ -267,6 +272,8 @@ def benign_ctor(rng, w):
             kw["video_width"], kw["video_height"] = rng.choice([(640, 360), (1280, 720)])
         if rng.random() < 0.15:
             kw["relativize"] = False
+            if rng.random() < 0.5:
+                kw["fit_to_screen"] = False
     if w in ("DFXPWriter", "SinglePositioningDFXPWriter") and rng.random() < 0.3:
         kw["write_inline_positioning"] = True
     if w == "SinglePositioningDFXPWriter" and rng.random() < 0.4:
@@ -496,7 +503,15 @@ def _run(seed, tier, a, t0, evidence_path):
         ctor = benign_ctor(rng, w)
         # absolute units only when the writer knows the video size and relativizes (otherwise it refuses, by design)
         abs_ok = "video_width" in ctor and ctor.get("relativize", True)
-        pipelines.append({"recipe": benign_recipe(rng, abs_units=abs_ok), "writer": w, "ctor": ctor})
+        rec = benign_recipe(rng, abs_units=abs_ok)
+        if ctor.get("relativize") is False and ctor.get("fit_to_screen") is False and rng.random() < 0.5:
+            # absolute values written as they are, including very large and very small ones
+            big = {"origin": [[rng.choice([1000000, 1234567.891, 16, 0.004]), "px"], [rng.choice([2500000, 9, 0.0001]), "px"]],
+                   "extent": [[rng.choice([3000000.5, 640]), "px"], [rng.choice([1e7, 360]), "px"]]}
+            for l in rec["langs"]:
+                for c in l["captions"][:2]:
+                    c["layout"] = big
+        pipelines.append({"recipe": rec, "writer": w, "ctor": ctor})
     # the recorded example of every open known finding is re-run each time, so that the KNOWN-FINDING line
     # does not depend on the seed (and disappears by itself once the defect is repaired)
     for f in load_known():
